@@ -75,19 +75,106 @@ theorem C18_cont_setpos_reject_unchanged (s : ESpace) (a : Aid) (p : Pos)
     · simp at h
     · split at h <;> simp at h
 
-/-- Experimental `agent.position += v` that would leave a bounded space: the `ValueError` comes from the setter,
-    which is handed the sum computed on a *copy* of the row (repair CS2) — the array has not been written, the
-    agent stays where it was.  It is rejected exactly when position + v is out of bounds on a non-torus. -/
-theorem C18_cont_iadd_reject_unchanged (s : ESpace) (a : Aid) (v : Pos)
-    (h : agentIadd s a v = .error .oob) :
-    estep s (.iadd a v) = s ∧
-    ∃ q, agentGet s a = .ok q ∧ inBounds s.cfg.dims (vadd q v) = false ∧ s.cfg.torus = false := by
-  refine ⟨by simp [estep, h], ?_⟩
-  unfold agentIadd at h
+/-- The setter with the state returned also on an exception (`agentSetW false`, what the driver runs) is `agentSet`: its
+    state is the state `estep` carries on with, its result the result of `agentSet`; likewise for a value of any length. -/
+theorem C18_cont_setpos_stepwise (s : ESpace) (a : Aid) (p : Pos) :
+    agentSetW false s a p = (estep s (.set a p), (agentSet s a p).map (fun _ => ())) ∧
+    agentSetVW false s a p = (estepV s (.set a p), (agentSetV s a p).map (fun _ => ())) := by
+  have h1 : ∀ q, agentSetW false s a q = (estep s (.set a q), (agentSet s a q).map (fun _ => ())) := by
+    intro q
+    unfold agentSetW estep agentSet
+    cases hg : s.gone a
+    · simp only [Bool.false_eq_true, if_false]
+      cases hb : inBounds s.cfg.dims q <;> cases ht : s.cfg.torus
+      · simp [setPos, hb, ht, hg, Except.map]
+      all_goals
+        simp only [Bool.or_true, Bool.or_false, if_true]
+        cases hs : setPos s a q <;> simp [hg, Except.map]
+    · simp [hg, Except.map]
+  refine ⟨h1 p, ?_⟩
+  unfold agentSetVW estepV agentSetV
+  cases hg : s.gone a
+  · simp only [Bool.false_eq_true, if_false]
+    cases hb : bcast s.nd p with
+    | error e => simp [hg, Except.map]
+    | ok q =>
+      simp only [h1 q, estep, agentSet, hg, Bool.false_eq_true, if_false]
+  · simp [hg, Except.map]
+
+/-- Experimental `agent.position = value` that raises — whatever the exception: the state the call leaves behind
+    (`agentSetW` returns it also on an exception) is the state before the call.  With a setter that stores the value before
+    validating it (`writeFirst = true`) this is false: `C18_cont_setpos_write_first_refuted`. -/
+theorem C18_cont_setpos_reject_state (s : ESpace) (a : Aid) (p : Pos) (e : Err)
+    (h : (agentSetW false s a p).2 = .error e) :
+    (agentSetW false s a p).1 = s ∧ estep s (.set a p) = s ∧ agentSet s a p = .error e := by
+  have hst := (C18_cont_setpos_stepwise s a p).1
+  have he : agentSet s a p = .error e := by
+    rw [hst] at h
+    cases hr : agentSet s a p with
+    | error e' => rw [hr] at h; simpa [Except.map] using h
+    | ok s' => rw [hr] at h; simp [Except.map] at h
+  have hs : estep s (.set a p) = s := by simp [estep, he]
+  exact ⟨by rw [hst]; exact hs, hs, he⟩
+
+/-- A setter that writes the row first and validates afterwards violates it: in the box `[0,1]²` the agent at (1/64, 1/64) is
+    assigned (65/64, 0); the call raises `ValueError` and the agent reports (65/64, 0), outside the space. -/
+theorem C18_cont_setpos_write_first_refuted :
+    ∃ (s : ESpace) (a : Aid) (p : Pos), (agentSetW true s a p).2 = .error .oob ∧
+      agentGet s a = .ok [1, 1] ∧ agentGet (agentSetW true s a p).1 a = .ok [65, 0] ∧
+      inBounds s.cfg.dims [65, 0] = false ∧ (agentSetW false s a p).2 = .error .oob ∧ (agentSetW false s a p).1 = s :=
+  ⟨erun { dims := [(0, 64), (0, 64)], torus := false } 0 [.new 1, .set 1 [1, 1]], 1, [65, 0],
+    by rfl, by rfl, by rfl, by rfl, by rfl, (C18_cont_setpos_reject_state _ _ _ _ (by rfl)).1⟩
+
+/-- `agent.position += v` statement by statement (`agentIaddW false`: getter = a copy, `+=` on the copy, setter) is the
+    assignment of position + v: its state is the state `estep` carries on with and its result the result of `agentIadd`;
+    likewise for a `v` of any length.  (So every theorem about `.iadd` steps is about the three statements the code runs.) -/
+theorem C18_cont_iadd_stepwise (s : ESpace) (a : Aid) (v : Pos) :
+    agentIaddW false s a v = (estep s (.iadd a v), (agentIadd s a v).map (fun _ => ())) ∧
+    agentIaddVW false s a v = (estepV s (.iadd a v), (agentIaddV s a v).map (fun _ => ())) := by
+  have h1 : agentIaddW false s a v = (estep s (.iadd a v), (agentIadd s a v).map (fun _ => ())) := by
+    unfold agentIaddW agentIadd estep
+    cases hq : agentGet s a with
+    | error e => simp [agentIadd, hq, Except.map]
+    | ok q =>
+      simp only [agentIadd, hq, Bool.false_eq_true, if_false]
+      cases hs : agentSet s a (vadd q v) <;> simp [Except.map]
+  refine ⟨h1, ?_⟩
+  unfold agentIaddVW agentIaddV estepV
+  cases hq : agentGet s a with
+  | error e => simp [agentIaddV, hq, Except.map]
+  | ok q =>
+    cases hb : bcast s.nd v with
+    | error e => simp [agentIaddV, hq, hb, Except.map]
+    | ok w =>
+      simp only [agentIaddV, hq, hb]
+      unfold agentIaddW
+      simp only [hq, Bool.false_eq_true, if_false]
+      cases hs : agentSet s a (vadd q w) <;> simp [Except.map]
+
+/-- Experimental `agent.position += v` that raises — whatever the exception (`AttributeError` on a removed agent object,
+    `KeyError`, `ValueError` for a sum outside a bounded space): the state the call leaves behind (`agentIaddW` returns it
+    also on an exception, as legacy `move` does) is the state before the call; in particular the array has not been written
+    and the agent stays where it was.  The `ValueError` comes from the setter, which is handed the sum computed on a *copy*
+    of the row (repair CS2), exactly when position + v is out of bounds on a non-torus.  With the getter of the code before
+    the repair (`view = true`) the statement is false: `C18_cont_iadd_view_getter_refuted`. -/
+theorem C18_cont_iadd_reject_unchanged (s : ESpace) (a : Aid) (v : Pos) (e : Err)
+    (h : (agentIaddW false s a v).2 = .error e) :
+    (agentIaddW false s a v).1 = s ∧ estep s (.iadd a v) = s ∧ agentIadd s a v = .error e ∧
+    (e = .oob → ∃ q, agentGet s a = .ok q ∧ inBounds s.cfg.dims (vadd q v) = false ∧ s.cfg.torus = false) := by
+  have hst := (C18_cont_iadd_stepwise s a v).1
+  have he : agentIadd s a v = .error e := by
+    rw [hst] at h
+    cases hr : agentIadd s a v with
+    | error e' => rw [hr] at h; simpa [Except.map] using h
+    | ok s' => rw [hr] at h; simp [Except.map] at h
+  have hs : estep s (.iadd a v) = s := by simp [estep, he]
+  refine ⟨by rw [hst]; exact hs, hs, he, ?_⟩
+  rintro rfl
+  unfold agentIadd at he
   cases hq : agentGet s a with
   | error e =>
-    rw [hq] at h
-    simp only [Except.error.injEq] at h; subst h
+    rw [hq] at he
+    simp only [Except.error.injEq] at he; subst he
     unfold agentGet getPos at hq
     split at hq
     · cases hq
@@ -95,8 +182,18 @@ theorem C18_cont_iadd_reject_unchanged (s : ESpace) (a : Aid) (v : Pos)
       · cases hq
       · split at hq <;> cases hq
   | ok q =>
-    rw [hq] at h
-    exact ⟨q, rfl, (C18_cont_setpos_reject_unchanged s a (vadd q v) h).2⟩
+    rw [hq] at he
+    exact ⟨q, rfl, (C18_cont_setpos_reject_unchanged s a (vadd q v) he).2⟩
+
+/-- The code before repair CS2 (the getter handed out a view of the agent's row, `agentIaddW true`) violates it: in the box
+    `[0,1]²` the agent at (1/64, 1/64) is asked to move by (1, 0); the call raises `ValueError` and the agent is at
+    (65/64, 1/64), outside the space.  (The same history on the code as it is: the examples at the end.) -/
+theorem C18_cont_iadd_view_getter_refuted :
+    ∃ (s : ESpace) (a : Aid) (v : Pos), (agentIaddW true s a v).2 = .error .oob ∧
+      agentGet s a = .ok [1, 1] ∧ agentGet (agentIaddW true s a v).1 a = .ok [65, 1] ∧
+      inBounds s.cfg.dims [65, 1] = false ∧ (agentIaddW false s a v).2 = .error .oob ∧ (agentIaddW false s a v).1 = s :=
+  ⟨erun { dims := [(0, 64), (0, 64)], torus := false } 0 [.new 1, .set 1 [1, 1]], 1, [64, 0],
+    by rfl, by rfl, by rfl, by rfl, by rfl, (C18_cont_iadd_reject_unchanged _ _ _ _ (by rfl)).1⟩
 
 /-- a legacy call that raises at state `s` (for `move_agent`: the out-of-bounds rejection) -/
 def lRejected (s : LSpace) : LOp → Prop
